@@ -19,7 +19,7 @@ PROP = {  # commit subject prefix -> property
  "from_n3 un-escapes": "C07", "the SPARQL parser keeps TAB": "C07", "RDF Patch diff": "C06", "TriG keeps": "C06",
  "the N-Triples parser accepts statements": "C05", "a language tag with": "C05", "parsing from bytes": "C05",
  "N-Triples/N-Quads output validates": "C05", "control characters make": "C05",
- "aggregates with DISTINCT": "C08", "MIN and MAX": "C08", "AVG over xsd:float": "C08", "SUM and AVG over": "C08", "an aggregate skips": "C08",
+ "aggregates with DISTINCT": "C08", "MIN and MAX": "C08", "AVG over xsd:float": "C08", "SUM and AVG over": "C08", "an aggregate skips": "C08", "SUM over a group whose datatypes": "C08", "a prefixed name may end in an escaped dot": "C05",
  "a Literal made from a non-finite": "C09", "normalize() of a binary": "C09", "xsd:normalizedString": "C09",
  "DELETE WHERE matches": "C10", "DELETE WHERE { GRAPH ?g": "C10", "USING and USING NAMED define": "C10", "the TriX parser strips": "C06", "INSERT templates skip": "C10", "a blank node label in an INSERT": "C10",
  "template GRAPH ?g": "C10", "DROP DEFAULT through": "C10", "updates outside GRAPH": "C10", "CLEAR/DROP NAMED": "C10",
